@@ -434,12 +434,19 @@ Proof.
   subst h'. split; [reflexivity|exact H].
 Qed.
 
-(* an action other than Lock can only be performed by the holder *)
+(* an action other than Lock and a wait can only be performed by the holder *)
 Lemma cc_thread_ok_holder th a r : cc_thread_ok th -> ct_rem th = a :: r ->
-  a <> ALock -> ct_holds th = true.
+  a <> ALock -> (forall w, a <> AWait w) -> ct_holds th = true.
 Proof.
-  intros H Er Hne. destruct (cc_thread_ok_step _ _ _ H Er) as [Ha _].
-  destruct a; cbn in Ha; destruct (ct_holds th); try discriminate; try reflexivity. congruence.
+  intros H Er Hne Hnw. destruct (cc_thread_ok_step _ _ _ H Er) as [Ha _].
+  destruct a; cbn in Ha; destruct (ct_holds th); try discriminate; try reflexivity; try congruence.
+Qed.
+
+(* a wait is never the next action of the thread that holds the mutex *)
+Lemma cc_thread_ok_wait th w r : cc_thread_ok th -> ct_rem th = AWait w :: r -> ct_holds th = false.
+Proof.
+  intros H Er. destruct (cc_thread_ok_step _ _ _ H Er) as [Ha _].
+  cbn in Ha. destruct (ct_holds th); [discriminate|reflexivity].
 Qed.
 
 Lemma cc_inv1_step c e c' : cc_inv1 c -> cc_stepf c e = Some c' -> cc_inv1 c'.
@@ -502,17 +509,17 @@ Lemma cc_reach_mutex ps evs c : cc_good ps -> cc_exec (cc_init ps) evs c -> cc_m
 Proof. intros Hg H. exact (proj2 (cc_inv1_run _ _ _ (cc_inv1_init _ Hg) H)). Qed.
 
 Lemma cc_access_by_holder ps e1 i a e2 c : cc_good ps ->
-  cc_exec (cc_init ps) (e1 ++ (i, a) :: e2) c -> a <> ALock ->
+  cc_exec (cc_init ps) (e1 ++ (i, a) :: e2) c -> a <> ALock -> (forall w, a <> AWait w) ->
   exists c1, cc_exec (cc_init ps) e1 c1 /\ cc_holds c1 i = true /\
              forall j, cc_holds c1 j = true -> j = i.
 Proof.
-  intros Hg H Hne. apply cc_run_app in H. destruct H as (c1 & H1 & H2).
+  intros Hg H Hne Hnw. apply cc_run_app in H. destruct H as (c1 & H1 & H2).
   exists c1. split; [exact H1|].
   pose proof (cc_inv1_run _ _ _ (cc_inv1_init _ Hg) H1) as [Hok Hmx].
   cbn [cc_run] in H2. destruct (cc_stepf c1 (i, a)) as [c2|] eqn:Es; [|discriminate].
   destruct (cc_stepf_inv _ _ _ _ Es) as (th & r & En & Er & _ & _).
   assert (Hh : cc_holds c1 i = true).
-  { unfold cc_holds. rewrite En. eapply cc_thread_ok_holder; [apply (Hok _ _ En)|exact Er|exact Hne]. }
+  { unfold cc_holds. rewrite En. eapply cc_thread_ok_holder; [apply (Hok _ _ En)|exact Er|exact Hne|exact Hnw]. }
   split; [exact Hh|]. intros j Hj. apply Hmx; assumption.
 Qed.
 
@@ -538,7 +545,7 @@ Lemma cc_txrx_tail a r : cc_txrx_ok (a :: r) = true -> a <> ATx -> a <> ARx /\ c
 Proof. destruct a; cbn; intros H Hne; try discriminate; try (split; [discriminate|exact H]). congruence. Qed.
 
 Lemma cc_inv2_step c o i a c' : cc_inv1 c -> cc_inv2 c o -> cc_stepf c (i, a) = Some c' ->
-  (forall k, o = Some k -> i = k /\ a = ARx) /\
+  (forall k, o = Some k -> (i = k /\ a = ARx) \/ (i <> k /\ exists w, a = AWait w)) /\
   exists o', cc_inv2 c' o' /\
     cc_olist o ++ cc_txs [(i, a)] = cc_rxs [(i, a)] ++ cc_olist o' /\
     (a = ATx -> o' = Some i) /\
@@ -547,25 +554,41 @@ Proof.
   intros [Hok Hmx] [Hrest Hout] H.
   destruct (cc_stepf_inv _ _ _ _ H) as (th & r & En & Er & Hfree & Ec).
   destruct o as [k|].
-  - (* a request of thread k is outstanding: only k can move, and it reads its reply *)
+  - (* a request of thread k is outstanding: k reads its reply; another thread can
+       only wait for a peer (it cannot take the mutex, and every other action needs it) *)
     destruct (Hout k eq_refl) as (tk & rk & Enk & Erk & Htk & Hhk).
-    assert (Hik : i = k).
-    { destruct (Nat.eq_dec i k) as [E|Hne]; [exact E|exfalso].
-      assert (Hhi : ct_holds th = false).
+    destruct (Nat.eq_dec i k) as [E|Hne].
+    + subst i. assert (th = tk) by congruence. subst tk.
+      assert (a = ARx /\ r = rk) by (split; congruence). destruct H0 as [-> ->].
+      split; [intros k' Hk'; inversion Hk'; subst; left; split; reflexivity|].
+      exists None. split; [|split; [reflexivity|split; [discriminate|discriminate]]].
+      split; [|intros j; discriminate].
+      intros j t Hj _. subst c'. destruct (Nat.eq_dec k j) as [->|Hne].
+      * rewrite (cc_nth_upd_same _ _ _ _ En) in Hj. inversion Hj. cbn [ct_rem]. exact Htk.
+      * rewrite cc_nth_upd_other in Hj by exact Hne. apply (Hrest _ _ Hj). congruence.
+    + assert (Hhi : ct_holds th = false).
       { destruct (ct_holds th) eqn:Eh; [|reflexivity]. exfalso. apply Hne.
         apply Hmx; unfold cc_holds; [rewrite En|rewrite Enk]; assumption. }
       destruct (cc_thread_ok_step _ _ _ (Hok _ _ En) Er) as [Ha _]. rewrite Hhi in Ha.
-      assert (a = ALock) by (destruct a; cbn in Ha; try discriminate; reflexivity). subst a.
-      pose proof (cc_free_holds _ k (Hfree eq_refl)) as Hf. unfold cc_holds in Hf.
-      rewrite Enk in Hf. congruence. }
-    subst i. assert (th = tk) by congruence. subst tk.
-    assert (a = ARx /\ r = rk) by (split; congruence). destruct H0 as [-> ->].
-    split; [intros k' Hk'; inversion Hk'; subst; split; reflexivity|].
-    exists None. split; [|split; [reflexivity|split; [discriminate|discriminate]]].
-    split; [|intros j; discriminate].
-    intros j t Hj _. subst c'. destruct (Nat.eq_dec k j) as [->|Hne].
-    + rewrite (cc_nth_upd_same _ _ _ _ En) in Hj. inversion Hj. cbn [ct_rem]. exact Htk.
-    + rewrite cc_nth_upd_other in Hj by exact Hne. apply (Hrest _ _ Hj). congruence.
+      assert (Hw : exists w, a = AWait w).
+      { destruct a; cbn in Ha; try discriminate; [|eexists; reflexivity].
+        exfalso. pose proof (cc_free_holds _ k (Hfree eq_refl)) as Hf. unfold cc_holds in Hf.
+        rewrite Enk in Hf. congruence. }
+      destruct Hw as [w ->].
+      split; [intros k' Hk'; inversion Hk'; subst; right; split; [exact Hne|eexists; reflexivity]|].
+      pose proof (Hrest _ _ En ltac:(congruence)) as Ht. rewrite Er in Ht.
+      exists (Some k). split; [|split; [reflexivity|split; [discriminate|]]].
+      * split.
+        -- intros j t Hj Hjk. subst c'. destruct (Nat.eq_dec i j) as [->|Hij].
+           ++ rewrite (cc_nth_upd_same _ _ _ _ En) in Hj. inversion Hj. cbn [ct_rem].
+              apply (cc_txrx_tail _ _ Ht); discriminate.
+           ++ rewrite cc_nth_upd_other in Hj by exact Hij. apply (Hrest _ _ Hj). exact Hjk.
+        -- intros j Hj. inversion Hj; subst j. subst c'. exists tk, rk.
+           rewrite cc_nth_upd_other by exact Hne. repeat split; assumption.
+      * intros k' Hk'. inversion Hk'; subst k'.
+        rewrite (cc_step_holds _ _ _ _ k H). replace (Nat.eqb k i) with false.
+        -- unfold cc_holds. rewrite Enk. exact Hhk.
+        -- symmetry. apply Nat.eqb_neq. congruence.
   - split; [intros k; discriminate|].
     pose proof (Hrest _ _ En ltac:(discriminate)) as Ht. rewrite Er in Ht.
     destruct (cc_thread_ok_step _ _ _ (Hok _ _ En) Er) as [Ha _].
@@ -630,7 +653,8 @@ Qed.
 
 (* T2: contiguity: the event that follows a Tx event is the Rx event of the same thread *)
 Lemma cc_tx_then_rx ps e1 i e e2 c : cc_good ps ->
-  cc_exec (cc_init ps) (e1 ++ (i, ATx) :: e :: e2) c -> e = (i, ARx).
+  cc_exec (cc_init ps) (e1 ++ (i, ATx) :: e :: e2) c ->
+  e = (i, ARx) \/ exists j w, j <> i /\ e = (j, AWait w).
 Proof.
   intros Hg H. apply cc_run_app in H. destruct H as (c1 & H1 & H2).
   pose proof (cc_inv1_run _ _ _ (cc_inv1_init _ Hg) H1) as Hi1.
@@ -640,7 +664,8 @@ Proof.
   rewrite (Ho2 eq_refl) in Hi2'. pose proof (cc_inv1_step _ _ _ Hi1 Es) as Hi1'.
   destruct e as [j b]. destruct (cc_stepf c2 (j, b)) as [c3|] eqn:Es2; [|discriminate].
   destruct (cc_inv2_step _ _ _ _ _ Hi1' Hi2' Es2) as [Hk _].
-  destruct (Hk i eq_refl) as [-> ->]. reflexivity.
+  destruct (Hk i eq_refl) as [[-> ->]|[Hne [w ->]]]; [left; reflexivity|].
+  right. exists j, w. split; [exact Hne|reflexivity].
 Qed.
 
 (* T3: the k-th reply is consumed by the thread that sent the k-th request *)
@@ -711,11 +736,11 @@ Proof.
   { destruct (cc_stepf_inv _ _ _ _ Es1) as (th & r & En & Er & _ & _).
     rewrite (cc_step_holds _ _ _ _ i Es1), Nat.eqb_refl. unfold cc_holds. rewrite En.
     rewrite (cc_thread_ok_holder th a1 r); [destruct a1; try discriminate; reflexivity
-      |apply (proj1 Hi1 _ _ En)|exact Er|destruct a1; discriminate]. }
+      |apply (proj1 Hi1 _ _ En)|exact Er|destruct a1; discriminate|destruct a1; discriminate]. }
   assert (Hh3 : cc_holds c3 j = true).
   { destruct (cc_stepf_inv _ _ _ _ Es2) as (th & r & En & Er & _ & _).
     unfold cc_holds. rewrite En.
-    apply (cc_thread_ok_holder th a2 r); [apply (proj1 Hi3 _ _ En)|exact Er|destruct a2; discriminate]. }
+    apply (cc_thread_ok_holder th a2 r); [apply (proj1 Hi3 _ _ En)|exact Er|destruct a2; discriminate|destruct a2; discriminate]. }
   assert (Hn3 : cc_holds c3 i = false).
   { destruct (cc_holds c3 i) eqn:E; [|reflexivity]. exfalso. apply Hij. apply (proj2 Hi3); assumption. }
   destruct (cc_first_unlock i _ _ _ H3 Hh2 Hn3) as (m1 & m2 & cm & -> & Hr1 & Hcm).
@@ -728,6 +753,125 @@ Proof.
     - symmetry. apply Nat.eqb_neq. congruence. }
   destruct (cc_some_lock j _ _ _ Hr2 Hnu Hh3) as (m2' & m3 & ->).
   exists m1, m2', m3. reflexivity.
+Qed.
+
+(* ------------------------------------------- (W) waits and the mutex *)
+
+(* a thread that waits for a peer (Accept, a read or write on a connection, a
+   handler call, ...) does not hold the mutex at that moment *)
+Lemma cc_wait_not_holder ps e1 i w e2 c : cc_good ps ->
+  cc_exec (cc_init ps) (e1 ++ (i, AWait w) :: e2) c ->
+  exists c1, cc_exec (cc_init ps) e1 c1 /\ cc_holds c1 i = false.
+Proof.
+  intros Hg H. apply cc_run_app in H. destruct H as (c1 & H1 & H2).
+  exists c1. split; [exact H1|].
+  pose proof (cc_inv1_run _ _ _ (cc_inv1_init _ Hg) H1) as [Hok _].
+  cbn [cc_run] in H2. destruct (cc_stepf c1 (i, AWait w)) as [c2|] eqn:Es; [|discriminate].
+  destruct (cc_stepf_inv _ _ _ _ Es) as (th & r & En & Er & _ & _).
+  unfold cc_holds. rewrite En. exact (cc_thread_ok_wait _ _ _ (Hok _ _ En) Er).
+Qed.
+
+(* in every reachable configuration the next action of the thread that holds
+   the mutex is not a wait: the holder can always move on without any peer *)
+Lemma cc_holder_not_waiting ps evs c i th w r : cc_good ps -> cc_exec (cc_init ps) evs c ->
+  nth_error c i = Some th -> ct_holds th = true -> ct_rem th <> AWait w :: r.
+Proof.
+  intros Hg H En Hh Er.
+  pose proof (cc_inv1_run _ _ _ (cc_inv1_init _ Hg) H) as [Hok _].
+  rewrite (cc_thread_ok_wait _ _ _ (Hok _ _ En) Er) in Hh. discriminate.
+Qed.
+
+(* programs without waits (the client): no wait event in any execution *)
+Definition cc_is_wait (a : cact) : bool := match a with AWait _ => true | _ => false end.
+Definition cc_nowait (p : list cact) : bool := forallb (fun a => negb (cc_is_wait a)) p.
+
+Lemma cc_exec_nowait ps : Forall (fun p => cc_nowait p = true) ps ->
+  forall evs c, cc_exec (cc_init ps) evs c -> forall i a, In (i, a) evs -> cc_is_wait a = false.
+Proof.
+  intros Hnw.
+  assert (Hinit : forall i th, nth_error (cc_init ps) i = Some th -> cc_nowait (ct_rem th) = true).
+  { intros i th Hi. destruct (cc_init_nth _ _ _ Hi) as (p & Hp & ->). cbn [ct_rem].
+    rewrite Forall_forall in Hnw. apply Hnw. exact (nth_error_In _ _ Hp). }
+  generalize (cc_init ps) Hinit. clear Hinit Hnw.
+  intros c0 H0 evs. revert c0 H0.
+  induction evs as [|[k b] t IH]; intros c0 H0 c H i a Hin; [contradiction|].
+  unfold cc_exec in H. cbn [cc_run] in H.
+  destruct (cc_stepf c0 (k, b)) as [c1|] eqn:Es; [|discriminate].
+  destruct (cc_stepf_inv _ _ _ _ Es) as (th & r & En & Er & _ & Ec).
+  pose proof (H0 _ _ En) as Hth. rewrite Er in Hth. cbn [cc_nowait forallb] in Hth.
+  apply andb_true_iff in Hth. destruct Hth as [Hb Hr].
+  destruct Hin as [Hin|Hin].
+  - inversion Hin; subst. destruct a; cbn in Hb |- *; try reflexivity. discriminate.
+  - apply (IH c1) with (c := c) (i := i); [|exact H|exact Hin].
+    intros j tj Hj. subst c1. destruct (Nat.eq_dec k j) as [->|Hne].
+    + rewrite (cc_nth_upd_same _ _ _ _ En) in Hj. inversion Hj. cbn [ct_rem]. exact Hr.
+    + rewrite cc_nth_upd_other in Hj by exact Hne. apply (H0 _ _ Hj).
+Qed.
+
+(* T2 for programs without waits: the event after a Tx is the Rx of the same thread *)
+Lemma cc_tx_then_rx_nowait ps e1 i e e2 c : cc_good ps -> Forall (fun p => cc_nowait p = true) ps ->
+  cc_exec (cc_init ps) (e1 ++ (i, ATx) :: e :: e2) c -> e = (i, ARx).
+Proof.
+  intros Hg Hnw H. destruct (cc_tx_then_rx _ _ _ _ _ _ Hg H) as [He|(j & w & _ & He)]; [exact He|].
+  exfalso. subst e.
+  assert (Hin : In (j, AWait w) (e1 ++ (i, ATx) :: (j, AWait w) :: e2)).
+  { apply in_or_app. right. right. left. reflexivity. }
+  pose proof (cc_exec_nowait ps Hnw _ _ H _ _ Hin) as Hf. discriminate Hf.
+Qed.
+
+(* flat paths of a table without waits have no waits *)
+Definition cc_table_nowait (tb : ctable) : bool :=
+  forallb (fun cm => cc_nowait (cc_acts (cm_body cm))) tb.
+
+Lemma cc_nowait_app p q : cc_nowait (p ++ q) = cc_nowait p && cc_nowait q.
+Proof. unfold cc_nowait. apply forallb_app. Qed.
+
+Lemma cc_find_in tb m cm : cc_find tb m = Some cm -> In cm tb.
+Proof.
+  induction tb as [|x t IH]; cbn [cc_find]; [discriminate|].
+  destruct (String.eqb (cm_name x) m); [intros H; inversion H; left; reflexivity|intros H; right; apply IH, H].
+Qed.
+
+Lemma cc_nowait_flat_map l : cc_nowait (flat_map cc_acts l) = true ->
+  forall b, In b l -> cc_nowait (cc_acts b) = true.
+Proof.
+  induction l as [|x t IH]; intros H b Hb; [contradiction|].
+  cbn [flat_map] in H. rewrite cc_nowait_app in H. apply andb_true_iff in H. destruct H as [Hx Ht].
+  destruct Hb as [->|Hb]; [exact Hx|exact (IH Ht b Hb)].
+Qed.
+
+Lemma cc_path_nowait tb : cc_table_nowait tb = true ->
+  forall sp p o, cc_path tb sp p o -> cc_nowait (cc_acts sp) = true -> cc_nowait p = true.
+Proof.
+  intros Htb sp p o Hp.
+  induction Hp as
+    [a p Hl| | | |m cm p o Hf Hb IHb| |s l p1 p2 o H1 IH1 H2 IH2|s l p1 o H1 IH1 Hne
+     |bs b p o Hin Hb IH|bs b p o Hin Hb IH Hne|bs b p Hin Hb IH
+     |b|b p1 p2 o o1 H1 IH1 Hoo H2 IH2|b p1 H1 IH1|b p1 H1 IH1]; intros Hs;
+    try reflexivity.
+  - destruct a; cbn in Hl; inversion Hl; subst; try reflexivity; exact Hs.
+  - rewrite cc_nowait_app. apply andb_true_iff. split.
+    + apply IHb. unfold cc_table_nowait in Htb. rewrite forallb_forall in Htb.
+      apply Htb. exact (cc_find_in _ _ _ Hf).
+    + unfold cc_exit. destruct (cm_deferred cm); reflexivity.
+  - cbn [cc_acts flat_map] in Hs. rewrite cc_nowait_app in Hs. apply andb_true_iff in Hs.
+    destruct Hs as [Ha Hb]. rewrite cc_nowait_app. apply andb_true_iff. split; [apply IH1, Ha|apply IH2, Hb].
+  - cbn [cc_acts flat_map] in Hs. rewrite cc_nowait_app in Hs. apply andb_true_iff in Hs.
+    apply IH1, Hs.
+  - apply IH. exact (cc_nowait_flat_map _ Hs _ Hin).
+  - apply IH. exact (cc_nowait_flat_map _ Hs _ Hin).
+  - apply IH. exact (cc_nowait_flat_map _ Hs _ Hin).
+  - rewrite cc_nowait_app. apply andb_true_iff. split; [apply IH1, Hs|apply IH2, Hs].
+  - apply IH1, Hs.
+  - apply IH1, Hs.
+Qed.
+
+Lemma cc_thread_path_nowait tb ms p : cc_table_nowait tb = true ->
+  cc_thread_path tb ms p -> cc_nowait p = true.
+Proof.
+  intros Htb (ps & HF & ->). induction HF as [|m q ms' ps' Hq _ IH]; [reflexivity|].
+  cbn [List.concat]. rewrite cc_nowait_app. apply andb_true_iff. split; [|exact IH].
+  exact (cc_path_nowait tb Htb _ _ _ Hq eq_refl).
 Qed.
 
 (* the generated tables: threads that run public calls of a checked table are good *)
